@@ -34,6 +34,13 @@ REGRESS = [
         {"a": "UpdName", "name": "tag/a", "new": "tag/b"}, {"a": "AddTag", "name": "tag/c", "def": {"k": "R", "n": 0, "s": [], "t": "tag/b"}, "color": "#333333"},
         {"a": "UpdName", "name": "tag/b", "new": "tag/d"}, {"a": "DelTag", "name": "tag/b"}, {"a": "UpdName", "name": "tag/c", "new": "tag/b"},
         {"a": "DelTag", "name": "tag/c"}, {"a": "DelTag", "name": "tag/b"}, {"a": "DelTag", "name": "tag/b"}]},
+    # an id of -1 stands for 2^64-1 (harness/api): no such stream, the call has to be rejected
+    {"id": "a-largest-stream-id", "steps": [
+        {"a": "ApiImport", "k": 1},
+        {"a": "AddTag", "name": "mark/m", "def": {"k": "M", "n": 0, "s": [0], "t": ""}, "color": "#444444"},
+        {"a": "MarkAdd", "name": "mark/m", "ids": [-1]}, {"a": "MarkDel", "name": "mark/m", "ids": [-1]},
+        {"a": "MarkDel", "name": "mark/m", "ids": [-1, 0]}, {"a": "MarkAdd", "name": "mark/m", "ids": [-1, 0]},
+        {"a": "MarkAdd", "name": "mark/m", "ids": [1]}]},
 ]
 
 
